@@ -1,23 +1,47 @@
 import WR.Base.Sexp
 import WR.C16.Spec
+import WR.C16.Enclosure
 open WR WR.Sexp WR.C16
 
 namespace Driver.C16
 
-/-- (b id positioned z floated ctx blockLevel inlineBlock hasLines (children…)), z = auto | integer.
-    The tree arrives as an s-expression of bounded depth; `fuel` bounds the recursion of the decoder only. -/
+/-- (b id positioned z floated opacity transform overflow blockLevel inlineBlock hasLines (children…)),
+    z = auto | integer.  The tree arrives as an s-expression of bounded depth; `fuel` bounds the recursion
+    of the decoder only. -/
 def getBox : Nat → Sexp → Option Box
   | 0, _ => none
-  | fuel + 1, .list [.atom "b", id, p, z, f, c, bl, ib, hl, .list ch] => do
+  | fuel + 1, .list [.atom "b", id, p, z, f, op, tr, ov, bl, ib, hl, .list ch] => do
     let z' ← match z with
       | .atom "auto" => some none
       | z => (z.asInt?).map some
     let ch' ← ch.mapM (getBox fuel)
-    some (.mk (← id.asNat?) (← p.asBool?) z' (← f.asBool?) (← c.asBool?) (← bl.asBool?) (← ib.asBool?) (← hl.asBool?) ch')
+    let p' ← p.asBool?
+    let f' ← f.asBool?
+    let op' ← op.asBool?
+    let tr' ← tr.asBool?
+    let ov' ← ov.asBool?
+    let bl' ← bl.asBool?
+    let ib' ← ib.asBool?
+    let hl' ← hl.asBool?
+    some (.mk (← id.asNat?) ⟨p', z', f', op', tr', ov', bl', ib', hl'⟩ ch')
   | _, _ => none
 
 def layerName : Layer → String
   | .background => "bg" | .border => "bd" | .content => "tx" | .outline => "ol"
+  | .groupOpen => "go" | .groupClose => "gc" | .xformOpen => "to" | .xformClose => "tc"
+  | .clipOpen => "co" | .clipClose => "cc"
+
+def layerOf : String → Option Layer
+  | "bg" => some .background | "bd" => some .border | "tx" => some .content | "ol" => some .outline
+  | "go" => some .groupOpen | "gc" => some .groupClose | "to" => some .xformOpen | "tc" => some .xformClose
+  | "co" => some .clipOpen | "cc" => some .clipClose
+  | _ => none
+
+def getEvs : Sexp → Option (List PEv)
+  | .list es => es.mapM fun
+    | .list [i, .atom l] => do some ((← i.asNat?), (← layerOf l))
+    | _ => none
+  | _ => none
 
 def putEvs (es : List PEv) : Sexp :=
   .list (es.map fun (i, l) => .list [ofNat i, .atom (layerName l)])
@@ -27,6 +51,11 @@ def handle (req : Sexp) : Sexp :=
     | .list [.atom "order", t] => do
       let b ← getBox 64 t
       some (.list [.atom "ok", putEvs (paintOrder b), putEvs (specOrder b)])
+    -- the enclosure / per-box layer judge on an event list (the implementation's)
+    | .list [.atom "enclosure", t, evs] => do
+      let b ← getBox 64 t
+      let evs ← getEvs evs
+      some (.list [.atom "ok", ofBool (enclosureJudge b evs), ofBool (enclosureJudgeLenient b evs)])
     | .list (.atom "sortz" :: xs) => do
       let xs ← xs.mapM fun
         | .list [z, i] => do some ((← z.asInt?), [((← i.asNat?), Layer.background)])
